@@ -31,6 +31,14 @@ class Raised(Exception):
         self.kind = kind
 
 
+class _Break(Exception):
+    pass
+
+
+class _Continue(Exception):
+    pass
+
+
 class Stopped(Exception):
     """(lenient mode) the walk met a statement it cannot interpret; `Interp.stopped_at` is that statement."""
 
@@ -252,12 +260,26 @@ class Interp:
                     n += 1
                     if n > 1000:
                         raise NotEvaluable("loop bound")
-                    self.block(st.body, env)
+                    try:
+                        self.block(st.body, env)
+                    except _Break:
+                        break
+                    except _Continue:
+                        continue
             elif isinstance(st, ast.For) and isinstance(st.iter, ast.Call) and call_name(st.iter) == "range" and not st.orelse:
                 args = [self.eval(a, env) for a in st.iter.args]
                 for i in range(*args):
                     self._store(st.target, i, env)
-                    self.block(st.body, env)
+                    try:
+                        self.block(st.body, env)
+                    except _Break:
+                        break
+                    except _Continue:
+                        continue
+            elif isinstance(st, ast.Break):
+                raise _Break()
+            elif isinstance(st, ast.Continue):
+                raise _Continue()
             elif isinstance(st, ast.For) and self.tensors and not st.orelse and not (isinstance(st.iter, ast.Call) and call_name(st.iter) == "range"):
                 seq = self.eval(st.iter, env)
                 if type(seq).__name__ == "ndarray" and seq.ndim >= 1:
